@@ -261,10 +261,19 @@ def run(tier, seed, replay=None):
         def qr_stub(mat): return mat, torch.eye(mat.shape[1], dtype=mat.dtype)
         def svd_spy(mat):
             seen.append(mat.clone()); raise _Stop()
+        had = j % 3 == 2                                   # dmrg_hadamard: its own copy of the sweep; the first factor acts as the diagonal operator diag(z)
+        if had:
+            N = list(M); zc = [ia((rA[i], M[i], rA[i + 1])) for i in range(d)]; xc = [ia((rx[i], N[i], rx[i + 1])) for i in range(d)]
+            Ac = []
+            for c in zc:
+                c4_ = np.zeros((c.shape[0], c.shape[1], c.shape[1], c.shape[2]))
+                for m_ in range(c.shape[1]): c4_[:, m_, m_, :] = c[:, m_, :]
+                Ac.append(c4_)
         try:
             DM.QR, DM.SVD = qr_stub, svd_spy
             try:
-                DM.dmrg_matvec_python(torchtt.TT([T_(c) for c in Ac]), torchtt.TT([T_(c) for c in xc]), torchtt.TT([T_(c) for c in yc]), nswp=2, eps=1e-10)
+                if had: DM.dmrg_hadamard_python(torchtt.TT([T_(c) for c in zc]), torchtt.TT([T_(c) for c in xc]), torchtt.TT([T_(c) for c in yc]), nswp=2, eps=1e-10)
+                else: DM.dmrg_matvec_python(torchtt.TT([T_(c) for c in Ac]), torchtt.TT([T_(c) for c in xc]), torchtt.TT([T_(c) for c in yc]), nswp=2, eps=1e-10)
             except _Stop:
                 pass
         except Exception as ex:
@@ -274,8 +283,11 @@ def run(tier, seed, replay=None):
         if not seen:
             V.fail("dmrg supercore correspondence: the routine never reached its SVD", {"M": M, "N": N}, failing_input=False); continue
         l3 = lambda cs: "[" + ";".join(o3(c) for c in cs) + "]"; l4 = lambda cs: "[" + ";".join(o4(c) for c in cs) + "]"
-        sc_cases.append("[check_dmrg_first (R:=Z) %s %s %s %s]" % (l3(yc), l4(Ac), l3(xc), zl(seen[0].numpy())))
-        sc_meta.append({"local_correspondence": "dmrg supercore", "d": d, "M": M, "N": N, "rA": rA, "rx": rx, "ry": ry})
+        try:
+            sc_cases.append("[check_dmrg_first (R:=Z) %s %s %s %s]" % (l3(yc), l4(Ac), l3(xc), zl(seen[0].numpy())))
+        except coqrun.NotExact as ex:
+            V.fail("correspondence(model/impl): the first supercore of %s on integer trains is not an integer array" % ("dmrg_hadamard" if had else "dmrg_matvec"), {"d": d, "M": M, "N": N, "rA": rA, "rx": rx, "ry": ry, "exc": str(ex)}); continue
+        sc_meta.append({"local_correspondence": "dmrg supercore", "routine": "dmrg_hadamard" if had else "dmrg_matvec", "d": d, "M": M, "N": N, "rA": rA, "rx": rx, "ry": ry})
     n_sc = 0
     if ok_make and sc_cases:
         try:
